@@ -202,6 +202,13 @@ def jacobian_rules(cx):
 
 def euler_rules(cx):
     """Euler extraction (shared with C07: the starting guess of points_to_mesh goes through from_initial -> to_wpr)"""
+    # ---------------------------------------------------------------- every rotation is decomposed, small ones included
+    b = cx.fn('geom3::align3::rotations::RotationMatrices::from_rotation')
+    if b:
+        W = '(call *rotations::to_wpr (call *rotations::to_matrix (param q)))'
+        cx.expect('EXPR', 'RotationMatrices::from_rotation', cx.retval(b), f'(call *RotationMatrices::from_euler (field 0 {W}) (field 1 {W}) (field 2 {W}))',
+                  'on every path the matrices are from_euler(w, p, r) of to_wpr(to_matrix(q)), the three angles in this order: no rotation is short-cut to the identity '
+                  '(q.w = cos(angle/2) is within 1e-8 of 1 for every angle up to 2.8e-4 rad)', where=b.file)
     # ---------------------------------------------------------------- Euler extraction at gimbal lock
     b = cx.fn('geom3::align3::rotations::to_wpr')
     if b:
